@@ -1,1 +1,446 @@
+//! Breakpad symbol-file grammar generator (workload, not oracle).
+//!
+//! Everything is drawn from the run's tape.  The generator produces *lines*; the caller chooses
+//! line endings, corruption and whether the last line is terminated.
 
+use simkit::{ch, chance, range};
+
+#[derive(Clone, Debug)]
+pub struct SymOpts {
+    /// Upper bound on top-level records.
+    pub max_records: u32,
+    /// Allow lines of 5 KiB … `max_long` bytes.
+    pub long_lines: bool,
+    pub max_long: usize,
+    /// Allow records that make the whole parse fail (garbage lines, non-UTF-8 names, …).
+    pub fatal_lines: bool,
+    /// Allow numeric extremes.
+    pub extremes: bool,
+    /// A record gets a long name with probability 1/long_den.
+    pub long_den: u32,
+}
+
+impl Default for SymOpts {
+    fn default() -> Self {
+        SymOpts {
+            max_records: 40,
+            long_lines: false,
+            max_long: 79_000,
+            fatal_lines: true,
+            extremes: true,
+            long_den: 10,
+        }
+    }
+}
+
+#[derive(Clone, Debug, Default)]
+pub struct SymDoc {
+    /// Lines without their terminator.
+    pub lines: Vec<Vec<u8>>,
+    /// Indices of lines that open a multi-line record (FUNC / STACK CFI INIT).
+    pub record_heads: Vec<usize>,
+    pub longest: usize,
+}
+
+const NAME_ALPHA: &[u8] = b"abcdefghijklmnopqrstuvwxyzABCDEFGHIJKLMNOPQRSTUVWXYZ0123456789_:<>~()*&, ";
+
+pub fn name(site: &'static str, len: usize) -> Vec<u8> {
+    let seed = ch(site, u32::MAX) as u64;
+    let mut r = simkit::rng::Xoshiro::new(seed);
+    let mut v = Vec::with_capacity(len);
+    for i in 0..len {
+        let mut c = NAME_ALPHA[r.below(NAME_ALPHA.len() as u32) as usize];
+        if (i == 0 || i + 1 == len) && c == b' ' {
+            c = b'_';
+        }
+        v.push(c);
+    }
+    v
+}
+
+fn short_name() -> Vec<u8> {
+    let len = 1 + ch("sym.name.len", 24) as usize;
+    name("sym.name", len)
+}
+
+/// A line length near one of the interesting thresholds.
+pub fn long_len(max_long: usize) -> usize {
+    const T: [usize; 13] = [5 * 1024, 10 * 1024, 20 * 1024, 40 * 1024, 60 * 1024, 78_000, 78_900, 79_000, 80 * 1024, 160 * 1024, 320 * 1024, 1 << 20, 2 << 20];
+    let cands: Vec<usize> = T.iter().copied().filter(|&t| t <= max_long).collect();
+    if cands.is_empty() {
+        return max_long;
+    }
+    let t = cands[ch("sym.long.t", cands.len() as u32) as usize];
+    let d = ch("sym.long.delta", 40) as usize;
+    let variant = ch("sym.long.variant", 4);
+    let l = match variant {
+        0 => t,
+        1 => t.saturating_sub(d),
+        2 => t / 2 + d,
+        _ => t.saturating_sub(t / 4).saturating_sub(d * 13),
+    };
+    l.clamp(16, max_long)
+}
+
+fn hex(v: u64) -> Vec<u8> {
+    format!("{:x}", v).into_bytes()
+}
+
+fn num_u64(extremes: bool, typical_max: u64) -> Vec<u8> {
+    if extremes && chance("sym.num.extreme", 1, 12) {
+        match ch("sym.num.which", 6) {
+            0 => b"0".to_vec(),
+            1 => b"ffffffff".to_vec(),
+            2 => b"ffffffffffffffff".to_vec(),
+            3 => b"10000000000000000".to_vec(), // one digit too many
+            4 => b"fffffffffffffff0".to_vec(),
+            _ => b"100000000".to_vec(),
+        }
+    } else {
+        hex(range("sym.num", 0, typical_max))
+    }
+}
+
+fn num_u32(extremes: bool, typical_max: u64) -> Vec<u8> {
+    if extremes && chance("sym.num32.extreme", 1, 12) {
+        match ch("sym.num32.which", 5) {
+            0 => b"0".to_vec(),
+            1 => b"ffffffff".to_vec(),
+            2 => b"100000000".to_vec(), // one digit too many
+            3 => b"80000000".to_vec(),
+            _ => b"fffffff8".to_vec(),
+        }
+    } else {
+        hex(range("sym.num32", 0, typical_max))
+    }
+}
+
+fn dec_u32(extremes: bool, typical_max: u64) -> Vec<u8> {
+    if extremes && chance("sym.dec.extreme", 1, 12) {
+        match ch("sym.dec.which", 4) {
+            0 => b"0".to_vec(),
+            1 => b"4294967295".to_vec(),
+            2 => b"4294967296".to_vec(),
+            _ => b"99999999999".to_vec(),
+        }
+    } else {
+        format!("{}", range("sym.dec", 0, typical_max)).into_bytes()
+    }
+}
+
+fn join(parts: &[&[u8]]) -> Vec<u8> {
+    let mut v = Vec::new();
+    for (i, p) in parts.iter().enumerate() {
+        if i > 0 {
+            v.push(b' ');
+        }
+        v.extend_from_slice(p);
+    }
+    v
+}
+
+const CFI_TOKENS: &[&str] = &[
+    ".cfa", ".ra", "$esp", "$ebp", "$eip", "$ebx", "$rsp", "$rbp", "$rip", "sp", "fp", "lr", "pc", "x29", "x30", "r7", "r11", "+", "-", "*", "/", "%", "@", "^", "4", "8", "16", "0", "-8", "ffff", ".undef",
+];
+
+pub fn cfi_rules(extremes: bool) -> Vec<u8> {
+    let mut s = String::new();
+    if !extremes || !chance("sym.cfi.weird", 1, 6) {
+        // plausible
+        match ch("sym.cfi.shape", 4) {
+            0 => s.push_str(".cfa: $esp 4 + .ra: .cfa 4 - ^"),
+            1 => s.push_str(".cfa: $rsp 8 + .ra: .cfa 8 - ^ $rbp: .cfa 16 - ^"),
+            2 => s.push_str(".cfa: sp 16 + .ra: x30 x29: .cfa 16 - ^ fp: .cfa 16 - ^"),
+            _ => s.push_str(".cfa: $ebp 8 + .ra: .cfa 4 - ^ $ebp: .cfa 8 - ^ $esp: .cfa"),
+        }
+    } else {
+        let n = 1 + ch("sym.cfi.n", 12);
+        for i in 0..n {
+            if i > 0 {
+                s.push(' ');
+            }
+            let t = CFI_TOKENS[ch("sym.cfi.tok", CFI_TOKENS.len() as u32) as usize];
+            s.push_str(t);
+            if chance("sym.cfi.colon", 1, 4) {
+                s.push(':');
+            }
+        }
+    }
+    s.into_bytes()
+}
+
+const WIN_TOKENS: &[&str] = &[
+    "$T0", "$T1", "$T2", "$eip", "$esp", "$ebp", "$ebx", "$L", "$P", ".cbSavedRegs", ".cbParams", ".cbLocals", ".raSearchStart", ".raSearch", "=", "+", "-", "*", "/", "%", "@", "^", "4", "8", "12", "0",
+];
+
+pub fn win_program(extremes: bool) -> Vec<u8> {
+    if !extremes || !chance("sym.win.weird", 1, 5) {
+        match ch("sym.win.shape", 3) {
+            0 => b"$T0 .raSearch = $eip $T0 ^ = $esp $T0 4 + =".to_vec(),
+            1 => b"$T0 $ebp = $eip $T0 4 + ^ = $ebp $T0 ^ = $esp $T0 8 + =".to_vec(),
+            _ => b"$T2 $esp .cbLocals + .cbSavedRegs + = $T0 .raSearchStart = $eip $T0 ^ = $esp $T0 4 + = $ebx $T2 4 - ^ =".to_vec(),
+        }
+    } else {
+        let n = 1 + ch("sym.win.n", 14);
+        let mut s = String::new();
+        for i in 0..n {
+            if i > 0 {
+                s.push(' ');
+            }
+            s.push_str(WIN_TOKENS[ch("sym.win.tok", WIN_TOKENS.len() as u32) as usize]);
+        }
+        s.into_bytes()
+    }
+}
+
+/// Which record kinds are enabled for this file (swarm).
+#[derive(Clone, Copy, Debug)]
+pub struct Kinds(pub u32);
+impl Kinds {
+    pub const INFO: u32 = 1;
+    pub const FILE: u32 = 2;
+    pub const ORIGIN: u32 = 4;
+    pub const PUBLIC: u32 = 8;
+    pub const FUNC: u32 = 16;
+    pub const WIN: u32 = 32;
+    pub const CFI: u32 = 64;
+    pub const BLANK: u32 = 128;
+    pub fn draw() -> Kinds {
+        // 0 => everything enabled
+        let v = ch("sym.kinds", 256);
+        Kinds(if v == 0 { 255 } else { v | Kinds::FUNC })
+    }
+    pub fn has(&self, k: u32) -> bool {
+        self.0 & k != 0
+    }
+}
+
+pub fn gen_doc(opts: &SymOpts) -> SymDoc {
+    let mut doc = SymDoc::default();
+    let kinds = Kinds::draw();
+    let ext = opts.extremes;
+    // MODULE line (occasionally absent or odd)
+    match if opts.fatal_lines { ch("sym.module", 12) } else { 0 } {
+        10 => {}
+        11 => doc.lines.push(b"MODULE Linux x86_64".to_vec()),
+        _ => {
+            let os = *simkit::pick("sym.os", &["windows", "Linux", "mac", "Android"]);
+            let cpu = *simkit::pick("sym.cpu", &["x86", "x86_64", "arm", "arm64"]);
+            doc.lines.push(
+                format!("MODULE {} {} 5A9832E5287241C1838ED98914E9B7FF1 {}", os, cpu, String::from_utf8_lossy(&short_name())).into_bytes(),
+            );
+        }
+    }
+    let n = range("sym.records", 0, opts.max_records as u64) as u32;
+    let mut addr: u64 = 0x1000;
+    let mut enabled: Vec<u32> = Vec::new();
+    for k in [Kinds::INFO, Kinds::FILE, Kinds::ORIGIN, Kinds::PUBLIC, Kinds::FUNC, Kinds::WIN, Kinds::CFI, Kinds::BLANK] {
+        if kinds.has(k) {
+            enabled.push(k);
+        }
+    }
+    for _ in 0..n {
+        let k = enabled[ch("sym.kind", enabled.len() as u32) as usize];
+        let long = opts.long_lines && chance("sym.long", 1, opts.long_den.max(1));
+        let nm = if long { name("sym.longname", long_len(opts.max_long)) } else { short_name() };
+        match k {
+            Kinds::INFO => {
+                let l = match ch("sym.info", 4) {
+                    0 => join(&[b"INFO CODE_ID", &hex(range("sym.codeid", 0, u32::MAX as u64)), &nm]),
+                    1 => join(&[b"INFO URL", &nm]),
+                    2 => join(&[b"INFO GENERATOR", &nm]),
+                    _ => join(&[b"INFO", &nm]),
+                };
+                doc.lines.push(l);
+            }
+            Kinds::FILE => doc.lines.push(join(&[b"FILE", &dec_u32(ext, 50), &nm])),
+            Kinds::ORIGIN => doc.lines.push(join(&[b"INLINE_ORIGIN", &dec_u32(ext, 20), &nm])),
+            Kinds::PUBLIC => {
+                let a = num_u64(ext, 0x20000);
+                let p = num_u32(ext, 64);
+                if chance("sym.public.m", 1, 4) {
+                    doc.lines.push(join(&[b"PUBLIC m", &a, &p, &nm]));
+                } else {
+                    doc.lines.push(join(&[b"PUBLIC", &a, &p, &nm]));
+                }
+            }
+            Kinds::FUNC => {
+                let size = range("sym.func.size", 0, 0x200);
+                let a = if ext && chance("sym.func.addr.extreme", 1, 15) { num_u64(true, 0x20000) } else { hex(addr) };
+                let sz = if ext && chance("sym.func.size.extreme", 1, 15) { num_u32(true, 0x200) } else { hex(size) };
+                let p = num_u32(ext, 32);
+                doc.record_heads.push(doc.lines.len());
+                if chance("sym.func.m", 1, 5) {
+                    doc.lines.push(join(&[b"FUNC m", &a, &sz, &p, &nm]));
+                } else {
+                    doc.lines.push(join(&[b"FUNC", &a, &sz, &p, &nm]));
+                }
+                let nsub = ch("sym.func.nsub", 8);
+                let mut la = addr;
+                for _ in 0..nsub {
+                    match ch("sym.func.sub", 5) {
+                        0 => {
+                            // INLINE depth line file origin [addr size]+
+                            let mut l = join(&[b"INLINE", &dec_u32(ext, 3), &dec_u32(ext, 500), &dec_u32(ext, 50), &dec_u32(ext, 20)]);
+                            let nr = 1 + ch("sym.inline.ranges", 3);
+                            for _ in 0..nr {
+                                l.push(b' ');
+                                l.extend_from_slice(&hex(la));
+                                l.push(b' ');
+                                l.extend_from_slice(&num_u32(ext, 0x20));
+                            }
+                            doc.lines.push(l);
+                        }
+                        1 => doc.lines.push(join(&[b"INLINE_ORIGIN", &dec_u32(ext, 20), &short_name()])),
+                        _ => {
+                            let ls = range("sym.line.size", 0, 0x20);
+                            doc.lines.push(join(&[&hex(la), &num_u32(ext, 0x20), &dec_u32(ext, 5000), &dec_u32(ext, 50)]));
+                            la = la.wrapping_add(ls);
+                        }
+                    }
+                }
+                addr = addr.wrapping_add(size.max(1)) + range("sym.func.gap", 0, 0x40);
+            }
+            Kinds::WIN => {
+                let ty = *simkit::pick("sym.win.ty", &[b'4', b'0', b'4', b'0', b'1', b'3', b'f']);
+                let has_ps = match ch("sym.win.hasps", 6) {
+                    0 => b'9',
+                    1 => {
+                        if ty == b'4' {
+                            b'0'
+                        } else {
+                            b'1'
+                        }
+                    }
+                    _ => {
+                        if ty == b'4' {
+                            b'1'
+                        } else {
+                            b'0'
+                        }
+                    }
+                };
+                let a = num_u64(ext, 0x20000);
+                let rest = if ty == b'4' { win_program(ext) } else { vec![*simkit::pick("sym.win.bp", &[b'0', b'1'])] };
+                let mut l = b"STACK WIN ".to_vec();
+                l.push(ty);
+                for f in [a, num_u32(ext, 0x200), num_u32(ext, 16), num_u32(ext, 16), num_u32(ext, 64), num_u32(ext, 32), num_u32(ext, 256), num_u32(ext, 64)] {
+                    l.push(b' ');
+                    l.extend_from_slice(&f);
+                }
+                l.push(b' ');
+                l.push(has_ps);
+                l.push(b' ');
+                l.extend_from_slice(&rest);
+                if long {
+                    l.push(b' ');
+                    l.extend_from_slice(&nm);
+                }
+                doc.lines.push(l);
+            }
+            Kinds::CFI => {
+                let a0 = range("sym.cfi.addr", 0x1000, 0x20000);
+                doc.record_heads.push(doc.lines.len());
+                let mut l = join(&[b"STACK CFI INIT", &if ext && chance("sym.cfi.addr.extreme", 1, 15) { num_u64(true, 0) } else { hex(a0) }, &num_u32(ext, 0x200), &cfi_rules(ext)]);
+                if long {
+                    l.extend_from_slice(b" $junk: ");
+                    l.extend_from_slice(&nm);
+                }
+                doc.lines.push(l);
+                let nd = ch("sym.cfi.ndelta", 5);
+                for i in 0..nd {
+                    doc.lines.push(join(&[b"STACK CFI", &hex(a0 + 1 + i as u64 * 3), &cfi_rules(ext)]));
+                }
+            }
+            _ => doc.lines.push(Vec::new()),
+        }
+        if opts.fatal_lines && chance("sym.fatal", 1, 60) {
+            match ch("sym.fatal.kind", 5) {
+                0 => doc.lines.push(b"this is not a record".to_vec()),
+                1 => doc.lines.push(vec![b'F', b'I', b'L', b'E', b' ', b'1', b' ', 0xff, 0xfe, 0x80]),
+                2 => doc.lines.push(b"FUNC zz 10 0 bad_hex".to_vec()),
+                3 => doc.lines.push(b"MODULE Linux x86 000000000000000000000000000000000 late.so".to_vec()),
+                _ => doc.lines.push(b"PUBLIC 1000".to_vec()),
+            }
+        }
+    }
+    doc.longest = doc.lines.iter().map(|l| l.len()).max().unwrap_or(0);
+    doc
+}
+
+#[derive(Clone, Copy, Debug, PartialEq, Eq)]
+pub enum Eol {
+    Lf,
+    CrLf,
+    CrCrLf,
+    Mixed,
+}
+
+pub fn draw_eol() -> Eol {
+    [Eol::Lf, Eol::CrLf, Eol::CrCrLf, Eol::Mixed][ch("sym.eol", 4) as usize]
+}
+
+/// Serialise lines.  Returns (bytes, offsets of each line start, offset list of positions between `\r` and `\n`).
+pub fn render(doc: &SymDoc, eol: Eol, terminate_last: bool) -> (Vec<u8>, Vec<usize>) {
+    let mut out = Vec::new();
+    let mut starts = Vec::new();
+    let n = doc.lines.len();
+    for (i, l) in doc.lines.iter().enumerate() {
+        starts.push(out.len());
+        out.extend_from_slice(l);
+        if i + 1 == n && !terminate_last {
+            break;
+        }
+        let e = match eol {
+            Eol::Mixed => [Eol::Lf, Eol::CrLf, Eol::CrCrLf][ch("sym.eol.mixed", 3) as usize],
+            e => e,
+        };
+        match e {
+            Eol::Lf => out.push(b'\n'),
+            Eol::CrLf => out.extend_from_slice(b"\r\n"),
+            _ => out.extend_from_slice(b"\r\r\n"),
+        }
+    }
+    (out, starts)
+}
+
+/// Byte-level corruption of a rendered file (1–4 edits).
+pub fn corrupt(bytes: &mut Vec<u8>) {
+    if bytes.is_empty() {
+        return;
+    }
+    let edits = 1 + ch("sym.corrupt.n", 4);
+    for _ in 0..edits {
+        if bytes.is_empty() {
+            return;
+        }
+        let pos = range("sym.corrupt.pos", 0, bytes.len() as u64 - 1) as usize;
+        match ch("sym.corrupt.kind", 6) {
+            0 => bytes[pos] ^= 1 << ch("sym.corrupt.bit", 8),
+            1 => bytes[pos] = b'\n',
+            2 => bytes[pos] = 0,
+            3 => {
+                bytes.remove(pos);
+            }
+            4 => bytes.insert(pos, *simkit::pick("sym.corrupt.ins", &[b' ', b'\r', b'\n', 0xff, b'0'])),
+            _ => {
+                let len = (range("sym.corrupt.cut", 1, 64) as usize).min(bytes.len() - pos);
+                bytes.drain(pos..pos + len);
+            }
+        }
+    }
+}
+
+/// Longest line (distance between consecutive `\n`, counting a trailing unterminated fragment).
+pub fn longest_line(bytes: &[u8]) -> usize {
+    let mut longest = 0;
+    let mut cur = 0;
+    for &b in bytes {
+        cur += 1;
+        if b == b'\n' {
+            longest = longest.max(cur);
+            cur = 0;
+        }
+    }
+    longest.max(cur)
+}
